@@ -61,10 +61,23 @@ static void build(const mj::Value& nd, JsonVariant dst, std::vector<FloatObs>& f
     if ((salt >> 8) % 3 == 0) dst.set(JsonString(b.data(), b.size(), JsonString::Copied));
     else dst.set(b);
   } else if (t == "r") {
-    if (b.size() >= 2 && (unsigned char)b[0] == 0xC4 && (salt >> 8) % 2 == 0 && (size_t)(unsigned char)b[1] + 2 == b.size())
-      dst.set(MsgPackBinary(b.data() + 2, b.size() - 2));
-    else
-      dst.set(serialized(b));
+    // bin / ext values go in through the API (MsgPackBinary / MsgPackExtension build the header from the size)
+    // two times out of three, verbatim through serialized() otherwise; the generator writes the header the
+    // API is expected to choose, so the expected bytes are the node's bytes either way
+    unsigned char h = b.empty() ? 0 : (unsigned char)b[0];
+    bool api = (salt >> 8) % 3 != 0;
+    size_t hl = 0;       // header length before the payload (for ext: including the type byte)
+    int type = -1;       // extension type, -1 for bin
+    if (h == 0xC4 && b.size() >= 2) hl = 2;
+    else if (h == 0xC5 && b.size() >= 3) hl = 3;
+    else if (h == 0xC6 && b.size() >= 5) hl = 5;
+    else if (h >= 0xD4 && h <= 0xD8 && b.size() >= 2) { hl = 2; type = (unsigned char)b[1]; }
+    else if (h == 0xC7 && b.size() >= 3) { hl = 3; type = (unsigned char)b[2]; }
+    else if (h == 0xC8 && b.size() >= 4) { hl = 4; type = (unsigned char)b[3]; }
+    else if (h == 0xC9 && b.size() >= 6) { hl = 6; type = (unsigned char)b[5]; }
+    if (api && hl && type < 0) dst.set(MsgPackBinary(b.data() + hl, b.size() - hl));
+    else if (api && hl) dst.set(MsgPackExtension((int8_t)type, b.data() + hl, b.size() - hl));
+    else dst.set(serialized(b));
   } else if (t == "a") {
     JsonArray a = dst.to<JsonArray>();
     for (auto& e : nd.at("c").a) build(e, a.add<JsonVariant>(), floats, salt);
